@@ -1,257 +1,165 @@
-(** Proofs about Future/FutModel.v: inductive invariants over all populations and schedules. *)
+(** Proofs of the C04 statements from the core invariant (Future/FutInv.v). *)
 From Coq Require Import List NArith Bool Lia Arith Permutation.
 From Coq Require Import ZifyN ZifyNat ZifyBool.
 From RecordUpdate Require Import RecordSet.
-From Vivid Require Import Future.FutModel Future.FutSpec.
+From Vivid Require Import Future.FutModel Future.FutSpec Future.FutBase Future.FutInvDef Future.FutInvLoc Future.FutInv.
 Import ListNotations RecordSetNotations.
 Local Open Scope N_scope.
 
-(** ------------------------------------------------------------------ lists of threads *)
+(** ------------------------------------------------------------------ one shot *)
 
-Lemma upd_length {A} (l : list A) i x : length (upd l i x) = length l.
-Proof. revert i; induction l as [|a l IH]; intros [|i]; cbn; auto. Qed.
-
-Lemma nth_error_upd_eq {A} (l : list A) i x p : nth_error l i = Some p -> nth_error (upd l i x) i = Some x.
-Proof. revert i; induction l as [|a l IH]; intros [|i] H; cbn in *; try discriminate; auto. Qed.
-
-Lemma nth_error_upd_ne {A} (l : list A) i j x : i <> j -> nth_error (upd l i x) j = nth_error l j.
+Lemma one_winner s : Inv s -> (length (winners s) <= 1)%nat /\ (closed s = true <-> winners s <> []).
 Proof.
-  revert i j; induction l as [|a l IH]; intros [|i] [|j] H; cbn; auto; try congruence.
+  intros HI. destruct (closed s) eqn:Hc.
+  - destruct (i_win _ HI Hc) as (w & v & p & Hw & _). rewrite Hw. cbn. split; [lia|]. split; congruence.
+  - destruct (i_open _ HI Hc) as (Hw & _). rewrite Hw. cbn. split; [lia|]. split; congruence.
 Qed.
 
-Lemma nth_error_upd_inv {A} (l : list A) i j x p :
-  nth_error (upd l i x) j = Some p -> (j = i /\ p = x) \/ (j <> i /\ nth_error l j = Some p).
+Lemma past_cas_is_winner s i p : Inv s -> nth_error (thr s) i = Some p -> close_pc p = true -> winners s = [i].
+Proof. intros HI Hp Hc. pose proof (i_loc _ HI _ _ Hp) as HL. destruct p; cbn in *; try discriminate; auto. Qed.
+
+Lemma writes_once s : Inv s ->
+  (length (wlog s) <= 1)%nat /\ forall i d, In (i, d) (wlog s) -> winners s = [i] /\ d = false.
 Proof.
-  intros H. destruct (Nat.eq_dec j i) as [->|N].
-  - left. split; auto.
-    destruct (nth_error l i) as [q|] eqn:E.
-    + rewrite (nth_error_upd_eq _ _ _ _ E) in H. congruence.
-    + apply nth_error_None in E. assert (nth_error (upd l i x) i = None) by (apply nth_error_None; rewrite upd_length; auto). congruence.
-  - right. split; auto. rewrite nth_error_upd_ne in H by auto. exact H.
+  intros HI. destruct (closed s) eqn:Hc.
+  - destruct (i_win _ HI Hc) as (w & v & p & Hw & Hf & Hp & Hph).
+    assert (Hwl : wlog s = [] \/ wlog s = [(w, false)]).
+    { destruct p; cbn in Hph; try tauto; destruct v; cbn in Hph; intuition. }
+    destruct Hwl as [-> | ->]; cbn; split; try lia; try tauto.
+    intros i d [E|[]]. injection E as <- <-. auto.
+  - destruct (i_open _ HI Hc) as (_ & _ & _ & _ & _ & _ & -> & _). cbn. split; [lia|tauto].
 Qed.
 
-Lemma nth_error_snoc_inv {A} (l : list A) x j p :
-  nth_error (l ++ [x]) j = Some p -> nth_error l j = Some p \/ (j = length l /\ p = x).
+Lemma write_before_done i s s' v :
+  Inv s -> nth_error (thr s) i = Some (CAssign v) -> step i s = Some s' ->
+  done s = false /\ closed s = true /\ res_of s = (None, None) /\ res_of s' = vpair v /\ final s = Some v.
 Proof.
-  intros H. destruct (Nat.lt_ge_cases j (length l)) as [Hl|Hl].
-  - left. rewrite nth_error_app1 in H; auto.
-  - right. rewrite nth_error_app2 in H by auto.
-    destruct (j - length l)%nat as [|k] eqn:E; cbn in H.
-    + split; [lia|congruence].
-    + destruct k; discriminate.
+  intros HI Hp H. destruct (winner_phase _ _ _ HI Hp eq_refl) as (v0 & Hf & Hph & Hc). cbn in Hph.
+  destruct Hph as (-> & _ & _ & He & Hm & Hd & _).
+  unfold step in H. rewrite Hp in H. injection H as <-. unfold res_of; cbn. rewrite He, Hm.
+  repeat split; auto. destruct (vpair v0); reflexivity.
 Qed.
 
-Lemma nth_error_snoc_old {A} (l : list A) x j p : nth_error l j = Some p -> nth_error (l ++ [x]) j = Some p.
-Proof. intros H. rewrite nth_error_app1; auto. apply nth_error_Some. congruence. Qed.
-
-(** ------------------------------------------------------------------ registry lemmas *)
-
-Lemma rlookup_rremove q p r : rlookup q (rremove p r) = if p =? q then None else rlookup q r.
+Lemma result_stable i s s' : Inv s -> done s = true -> step i s = Some s' -> res_of s' = res_of s /\ done s' = true.
 Proof.
-  unfold rremove. induction r as [|[a id] r IH]; cbn [filter rlookup fst].
-  - destruct (p =? q); reflexivity.
-  - destruct (a =? p) eqn:E1; cbn [negb rlookup].
-    + apply N.eqb_eq in E1; subst a. rewrite IH. destruct (p =? q); reflexivity.
-    + rewrite IH. destruct (a =? q) eqn:E2; auto.
-      apply N.eqb_eq in E2; subst a. rewrite N.eqb_sym, E1. reflexivity.
+  intros HI Hd H. unfold res_of.
+  step_inv H; cbn; auto.
+  destruct (winner_phase _ _ _ HI Hp eq_refl) as (v0 & _ & Hph & _). cbn in Hph.
+  destruct Hph as (_ & _ & _ & _ & _ & Hd' & _). rewrite Hd in Hd'. discriminate.
 Qed.
 
-Lemma rlookup_rinsert q p id r : rlookup q (rinsert p id r) = if p =? q then Some id else rlookup q r.
-Proof. unfold rinsert. cbn [rlookup]. rewrite rlookup_rremove. destruct (p =? q); reflexivity. Qed.
-
-(** ------------------------------------------------------------------ the clock *)
-
-Lemma tick_iter k s : N.iter k tick s = s <| now := now s + k |>.
+Lemma result_stable_act a s : Inv s -> done s = true -> res_of (do_act s a) = res_of s /\ done (do_act s a) = true.
 Proof.
-  induction k as [|k IH] using N.peano_ind.
-  - cbn [N.iter]. rewrite N.add_0_r. destruct s; reflexivity.
-  - rewrite N.iter_succ, IH. unfold tick. destruct s; cbn. rewrite N.add_succ_r, N.add_1_r. reflexivity.
+  intros HI Hd. destruct a as [|i]; cbn; auto.
+  destruct (step i s) eqn:E; auto. eapply result_stable; eauto.
 Qed.
 
-(** ------------------------------------------------------------------ step inversion *)
-
-Ltac destr_cond H :=
-  repeat match type of H with
-  | (if ?b then _ else _) = Some _ => let E := fresh "Hc" in destruct b eqn:E
-  | match ?o with Some _ => _ | None => _ end = Some _ => let E := fresh "Hc" in destruct o eqn:E
-  | match ?v with VMsg _ => _ | VErr _ => _ | VNil => _ end = Some _ => let E := fresh "Hv" in destruct v eqn:E
-  | match ?l with [] => _ | _ :: _ => _ end = Some _ => let E := fresh "Hl" in destruct l eqn:E
-  end.
-
-(** [step_inv H] : H : step i s = Some s'.  Leaves one goal per (pc, branch) with Hp : nth_error (thr s) i = Some <pc> *)
-Ltac step_inv H :=
-  unfold step in H;
-  match type of H with
-  | match nth_error (thr ?s) ?i with _ => _ end = Some _ =>
-      let p := fresh "p" in let Hp := fresh "Hp" in
-      destruct (nth_error (thr s) i) as [p|] eqn:Hp; [|discriminate H];
-      destruct p; destr_cond H; try discriminate H;
-      injection H as H; subst
-  end.
-
-
-(** ------------------------------------------------------------------ the core invariant *)
-
-Definition AllThr (P : nat -> pc -> Prop) (l : list pc) : Prop := forall j p, nth_error l j = Some p -> P j p.
-
-Lemma AllThr_upd (P Q : nat -> pc -> Prop) l i q :
-  AllThr P l ->
-  (forall j p, j <> i -> nth_error l j = Some p -> P j p -> Q j p) ->
-  Q i q ->
-  AllThr Q (upd l i q).
+Lemma result_stable_run sched s : Inv s -> done s = true -> res_of (run sched s) = res_of s /\ done (run sched s) = true.
 Proof.
-  intros H Hst Hq j p Hj. apply nth_error_upd_inv in Hj as [[-> ->]|[N Hj]]; auto.
+  revert s; induction sched as [|a l IH]; intros s HI Hd; [cbn; auto|].
+  change (run (a :: l) s) with (run l (do_act s a)).
+  destruct (result_stable_act a s HI Hd) as [E1 E2].
+  destruct (IH _ (do_act_inv _ a HI) E2) as [E3 E4]. split; congruence.
 Qed.
 
-Lemma AllThr_snoc (P : nat -> pc -> Prop) l x : AllThr P l -> P (length l) x -> AllThr P (l ++ [x]).
-Proof. intros H Hx j p Hj. apply nth_error_snoc_inv in Hj as [Hj|[-> ->]]; auto. Qed.
+Lemma waiter_needs_done i s s' full : nth_error (thr s) i = Some (WRecv full) -> step i s = Some s' -> done s = true.
+Proof. intros Hp H. unfold step in H. rewrite Hp in H. destruct (done s); auto; discriminate. Qed.
 
-Definition ask_pc (p : pc) : bool :=
-  match p with Start (ANew _) | ANew _ | AAppend | ACheck => true | _ => false end.
-Definition timer_pc (p : pc) : bool :=
-  match p with Start TFire | TFire => true | CCas (VErr e) => e =? E_TIMEOUT | _ => false end.
+(** ------------------------------------------------------------------ terminal states *)
 
-(** what a thread's pc says about the shared state *)
-Definition await_ok (k : pc) : Prop :=
-  match k with RLookup _ _ | CCas _ | PLock _ | WRecv _ | Done => True | _ => False end.
-Definition L (s : st) (j : nat) (p : pc) : Prop :=
+Definition blocked (s : st) (p : pc) : Prop :=
   match p with
-  | Start (ANew _) | ANew _ => j = 0%nat /\ created s = false
-  | AAppend | ACheck => j = 0%nat /\ created s = true /\ sent s = false
-  | Start TFire | TFire => created s = true /\ armed s <> None
-  | Start (RLookup q _) => q <> fpath
-  | Start (Await k) | Await k => await_ok k
-  | Start DLookup => True
-  | Start (FReg q id) | FReg q id => q <> fpath /\ id <> fid
-  | Start (FUnreg q) | FUnreg q => q <> fpath
-  | Start _ => False
-  | RLookup q _ => q = fpath -> sent s = true
-  | CCas _ => created s = true
-  | CAssign _ | CDone _ | CCloser _ | CLock _ | CTell _ _ => winners s = [j]
-  | PLoad _ => mu s = Some j
-  | PWaitDone _ => closed s = true
-  | PTell _ r => exists v, final s = Some v /\ r = vpair v
-  | _ => True
-  end.
-
-Definition wl (w : nat) (v : val) : list (nat * bool) := match v with VNil => [] | _ => [(w, false)] end.
-Definition stopped_ok (s : st) : Prop := tstopped s = match armed s with Some _ => true | None => false end.
-
-(** the stage of the thread that won the CAS *)
-Definition wphase (s : st) (w : nat) (v : val) (p : pc) : Prop :=
-  match p with
-  | CAssign v' => v' = v /\ v <> VNil /\ assigned s = false /\ err s = None /\ msg s = None /\ done s = false /\
-                  wlog s = [] /\ closer_ran s = false /\ tstopped s = false
-  | CDone v' => v' = v /\ assigned s = true /\ res_of s = vpair v /\ done s = false /\ wlog s = wl w v /\
-                closer_ran s = false /\ tstopped s = false
-  | CCloser v' => v' = v /\ assigned s = true /\ res_of s = vpair v /\ done s = true /\ wlog s = wl w v /\
-                  closer_ran s = false /\ stopped_ok s
-  | CLock v' => v' = v /\ assigned s = true /\ res_of s = vpair v /\ done s = true /\ wlog s = wl w v /\
-                closer_ran s = true /\ stopped_ok s
-  | CTell _ r => r = vpair v /\ assigned s = true /\ res_of s = vpair v /\ done s = true /\ wlog s = wl w v /\
-                 closer_ran s = true /\ stopped_ok s /\ fwd s = []
-  | Done => assigned s = true /\ res_of s = vpair v /\ done s = true /\ wlog s = wl w v /\
-            closer_ran s = true /\ stopped_ok s /\ fwd s = []
+  | Done => True
+  | Await _ => sent s = false
+  | CLock _ | PLock _ => mu s <> None
+  | PWaitDone _ | WRecv _ => done s = false
+  | TFire => armed s = None
   | _ => False
   end.
 
-Record Inv (s : st) : Prop := {
-  i_loc : AllThr (L s) (thr s);
-  i_new : created s = false ->
-          closed s = false /\ sent s = false /\ armed s = None /\ fired s = None /\ rlookup fpath (reg s) = None;
-  i_open : closed s = false ->
-           winners s = [] /\ final s = None /\ assigned s = false /\ err s = None /\ msg s = None /\ done s = false /\
-           wlog s = [] /\ closer_ran s = false /\ tstopped s = false /\ attempts s = [];
-  i_win : closed s = true ->
-          exists w v p, winners s = [w] /\ final s = Some v /\ nth_error (thr s) w = Some p /\ wphase s w v p;
-  i_mu : forall j, mu s = Some j -> exists fs, nth_error (thr s) j = Some (PLoad fs);
-  i_route : forall q id, rlookup q (reg s) = Some id -> (q = fpath <-> id = fid);
-  i_reg : rlookup fpath (reg s) <> None -> nth_error (thr s) 0 = Some ACheck \/ closer_ran s = false;
-  i_ask : sent s = false -> exists j p, nth_error (thr s) j = Some p /\ ask_pc p = true;
-  i_timer : armed s <> None -> closed s = true \/ exists j p, nth_error (thr s) j = Some p /\ timer_pc p = true;
-  i_fired : forall t, fired s = Some t -> exists t0, armed s = Some t0 /\ t0 + tmo s <= t;
-  i_rets : forall j full r, In (j, full, r) (rets s) -> done s = true /\ r = (if full then msg s else None, err s);
-  i_tells : forall x r, In (x, r) (tells s) -> exists v, final s = Some v /\ r = vpair v
-}.
-
-Lemma init_inv t progs : forallb prog_ok progs = true -> Inv (init t progs).
+Lemma terminal_blocked s i p : terminal s -> nth_error (thr s) i = Some p -> blocked s p.
 Proof.
-  intros Hok. split; cbn; try congruence; try tauto.
-  - intros j p Hj. destruct j as [|j]; cbn in Hj.
-    + injection Hj as <-. cbn. auto.
-    + apply nth_error_In in Hj. apply in_map_iff in Hj as [g [<- Hg]].
-      rewrite forallb_forall in Hok. specialize (Hok _ Hg).
-      destruct g as [q v|e| |fs|full|q id|q]; cbn in *; auto.
-      * destruct (q =? 0) eqn:E; cbn; auto. apply N.eqb_neq in E. exact E.
-      * destruct fs; cbn; auto.
-      * apply andb_true_iff in Hok as [A B]. apply negb_true_iff in A, B. apply N.eqb_neq in A, B. auto.
-      * apply negb_true_iff in Hok. apply N.eqb_neq in Hok. auto.
-  - intros _. exists 0%nat, (Start (ANew t)). auto.
+  intros Ht Hp.
+  destruct p; cbn; auto.
+  all: try (specialize (Ht 0 i); cbn [N.iter] in Ht; unfold step in Ht; rewrite Hp in Ht;
+            repeat match type of Ht with
+            | (if ?b then _ else _) = None => destruct b eqn:?
+            | match ?o with Some _ => _ | None => _ end = None => destruct o eqn:?
+            | match ?l with [] => _ | _ :: _ => _ end = None => destruct l eqn:?
+            | match ?v with VMsg _ => _ | VErr _ => _ | VNil => _ end = None => destruct v eqn:?
+            end; try discriminate Ht; auto; congruence).
+  (* TFire: advance the clock to the deadline *)
+  destruct (armed s) as [t0|] eqn:Ea; auto. exfalso.
+  specialize (Ht (t0 + tmo s) i). rewrite tick_iter in Ht. unfold step in Ht. cbn -[N.add N.leb] in Ht.
+  rewrite Hp, Ea in Ht.
+  assert (E : (t0 + tmo s <=? now s + (t0 + tmo s)) = true) by (apply N.leb_le; lia).
+  rewrite E in Ht. destruct (tstopped s); discriminate.
 Qed.
 
-Lemma tick_inv s : Inv s -> Inv (tick s).
+Lemma all_done_terminal s : (forall i p, nth_error (thr s) i = Some p -> p = Done) -> terminal s.
 Proof.
-  intros [].
-  split; cbn; auto.
+  intros H k i. rewrite tick_iter. unfold step. cbn.
+  destruct (nth_error (thr s) i) as [p|] eqn:E; auto. rewrite (H _ _ E). reflexivity.
 Qed.
 
-Ltac destr_pc_match :=
-  repeat match goal with
-  | H : context [match ?k with Start _ => _ | _ => _ end] |- _ => is_var k; destruct k
-  | |- context [match ?k with Start _ => _ | _ => _ end] => is_var k; destruct k
-  end.
-
-Ltac mp :=
-  repeat match goal with
-  | H : ?a = ?b, H2 : ?a = ?b -> _ |- _ => specialize (H2 H)
-  end.
-
-Ltac stab :=
-  let j := fresh "j" in let p := fresh "p" in let Nj := fresh "Nj" in let Hj := fresh "Hj" in let HL := fresh "HL" in
-  intros j p Nj Hj HL; destruct p; cbn in HL |- *; destr_pc_match; cbn in *;
-  try solve [intuition (try congruence; try lia)];
-  try solve [destruct HL as [? [? ?]]; intuition congruence];
-  try solve [destruct HL as [? [? ?]]; eexists; split; [eassumption || congruence | congruence]].
-
-Lemma sent_created s : Inv s -> sent s = true -> created s = true.
-Proof. intros HI H. destruct (created s) eqn:E; auto. destruct (i_new _ HI E) as (_ & ? & _). congruence. Qed.
-
-Lemma reg_created s : Inv s -> rlookup fpath (reg s) <> None -> created s = true.
-Proof. intros HI H. destruct (created s) eqn:E; auto. destruct (i_new _ HI E) as (_ & _ & _ & _ & ?). congruence. Qed.
-
-Lemma done_final s : Inv s -> done s = true -> exists v, final s = Some v /\ res_of s = vpair v /\ closed s = true.
+Lemma terminal_sent s : Inv s -> terminal s -> sent s = true.
 Proof.
-  intros HI Hd. destruct (closed s) eqn:Hc.
-  - destruct (i_win _ HI Hc) as (w & v & p & Hw & Hf & Hp & Hph).
-    exists v. split; auto. split; auto.
-    destruct p; cbn in Hph; try tauto; intuition congruence.
-  - destruct (i_open _ HI Hc) as (_ & _ & _ & _ & _ & ? & _). congruence.
+  intros HI Ht. destruct (sent s) eqn:E; auto. exfalso.
+  destruct (i_ask _ HI E) as (j & p & Hj & Hp). pose proof (terminal_blocked _ _ _ Ht Hj) as Hb.
+  destruct p; cbn in Hp; try discriminate; cbn in Hb; auto.
 Qed.
 
-Lemma step_loc i s s' : Inv s -> step i s = Some s' -> AllThr (L s') (thr s').
+Lemma terminal_mu s : Inv s -> terminal s -> mu s = None.
 Proof.
-  intros HI H.
-  pose proof (i_new _ HI) as Hnew. pose proof (i_open _ HI) as Hopen. pose proof (i_win _ HI) as Hwin.
-  pose proof (sent_created _ HI) as Hsc. pose proof (reg_created _ HI) as Hrc.
-  step_inv H; pose proof (i_loc _ HI _ _ Hp) as HLi; cbn in HLi; cbn [thr set]; mp.
-  all: try (apply AllThr_upd with (P := L s); [exact (i_loc _ HI) | stab | ]).
-  all: try solve [cbn in *; destr_pc_match; cbn in *; intuition congruence].
-  - (* Await *) destruct p; cbn in *; tauto.
-  - (* ANew, timer armed *)
-    apply AllThr_snoc.
-    + apply AllThr_upd with (P := L s); [exact (i_loc _ HI) | stab | cbn; intuition congruence].
-    + cbn. split; congruence.
-  - (* RLookup *)
-    destruct (opt_eqb (rlookup p (reg s)) 0) eqn:E; cbn; auto.
-    apply Hrc. destruct (rlookup p (reg s)) eqn:E2; cbn in E; try discriminate.
-    apply N.eqb_eq in E; subst n. apply (i_route _ HI) in E2 as E3. assert (p = 0) by (apply E3; reflexivity). subst p. congruence.
-  - destruct (opt_eqb (rlookup 0 (reg s)) 0) eqn:E; cbn; auto.
-    apply Hrc. destruct (rlookup 0 (reg s)); cbn in E; congruence.
-  - cbn. destruct Hopen as (-> & _). reflexivity.
-  - cbn. destruct Hopen as (-> & _). reflexivity.
-  - cbn. destruct Hopen as (-> & _). reflexivity.
-  - destruct (fwd s); cbn; auto.
-  - destruct l0; cbn; auto.
-  - destruct fs; cbn; auto. destruct (done_final _ HI Hc) as (v & Hf & Hr & _). exists v. split; auto.
-  - destruct l0; cbn; auto.
-Admitted.
+  intros HI Ht. destruct (mu s) as [j|] eqn:E; auto. exfalso.
+  destruct (i_mu _ HI _ E) as (fs & Hj). exact (terminal_blocked _ _ _ Ht Hj).
+Qed.
+
+Lemma terminal_closed s : Inv s -> terminal s -> closed s = true ->
+  done s = true /\ closer_ran s = true /\ fwd s = [] /\ exists w v, winners s = [w] /\ final s = Some v /\ res_of s = vpair v /\ nth_error (thr s) w = Some Done.
+Proof.
+  intros HI Ht Hc. destruct (i_win _ HI Hc) as (w & v & p & Hw & Hf & Hp & Hph).
+  pose proof (terminal_blocked _ _ _ Ht Hp) as Hb. pose proof (terminal_mu _ HI Ht) as Hm.
+  destruct p; cbn in Hph; try tauto; cbn in Hb; try tauto; try congruence.
+  repeat split; try tauto. exists w, v. intuition.
+Qed.
+
+Lemma completes s : Inv s -> terminal s -> (attempts s <> [] \/ armed s <> None) -> done s = true.
+Proof.
+  intros HI Ht H.
+  assert (Hc : closed s = true).
+  { destruct (closed s) eqn:Hc; auto. exfalso. destruct H as [H|H].
+    - destruct (i_open _ HI Hc) as (_ & _ & _ & _ & _ & _ & _ & _ & _ & Ha). congruence.
+    - destruct (i_timer _ HI H) as [?|(j & p & Hj & Hp)]; [congruence|].
+      pose proof (terminal_blocked _ _ _ Ht Hj) as Hb. pose proof (i_loc _ HI _ _ Hj) as HL.
+      destruct p; cbn in Hp; try discriminate; cbn in Hb; auto. }
+  apply (terminal_closed _ HI Ht Hc).
+Qed.
+
+Lemma no_deadlock s : Inv s -> terminal s ->
+  forall i p, nth_error (thr s) i = Some p ->
+    p = Done \/ (exists full, p = WRecv full) /\ done s = false /\ closed s = false /\ attempts s = [] /\ armed s = None.
+Proof.
+  intros HI Ht i p Hp.
+  pose proof (terminal_blocked _ _ _ Ht Hp) as Hb. pose proof (i_loc _ HI _ _ Hp) as HL.
+  pose proof (terminal_sent _ HI Ht) as Hs. pose proof (terminal_mu _ HI Ht) as Hm.
+  destruct p; cbn in Hb; try tauto; try congruence; auto.
+  - cbn in HL. tauto.
+  - cbn in HL. destruct (terminal_closed _ HI Ht HL) as (? & _). congruence.
+  - right. split; eauto. split; auto.
+    assert (Hc : closed s = false).
+    { destruct (closed s) eqn:Hc; auto. destruct (terminal_closed _ HI Ht Hc) as (? & _). congruence. }
+    split; auto. split.
+    + apply (i_open _ HI Hc).
+    + destruct (armed s) eqn:Ea; auto. assert (done s = true) by (apply completes; auto; right; congruence). congruence.
+Qed.
+
+Lemma no_registration_left s : Inv s -> terminal s -> done s = true -> rlookup fpath (reg s) = None.
+Proof.
+  intros HI Ht Hd. destruct (rlookup fpath (reg s)) eqn:E; auto. exfalso.
+  assert (Hn : rlookup fpath (reg s) <> None) by congruence.
+  destruct (done_final _ HI Hd) as (_ & _ & _ & Hc).
+  destruct (terminal_closed _ HI Ht Hc) as (_ & Hcr & _).
+  destruct (i_reg _ HI Hn) as [H0|H0]; [|congruence].
+  exact (terminal_blocked _ _ _ Ht H0).
+Qed.
